@@ -315,80 +315,241 @@ Proof.
     apply eq_true_iff_eq. rewrite H, N.leb_le. reflexivity.
 Qed.
 
-Lemma sum_filter_pos l : sum_n (filter (fun k => 0 <? k) l) = sum_n l.
-Proof.
-  induction l as [|x l IH]; cbn [filter sum_n]; [reflexivity|].
-  destruct (0 <? x) eqn:E; cbn [sum_n]; [lia|]. apply N.ltb_ge in E. lia.
-Qed.
-
-Lemma sum_lengths blocks : sum_n (map (fun b : list N => N.of_nat (length b)) blocks) = N.of_nat (length (concat blocks)).
-Proof.
-  induction blocks as [|b r IH]; cbn [map sum_n concat]; [reflexivity|]. rewrite app_length, IH. lia.
-Qed.
-
-Lemma series_reserved_total blocks : sum_n (series_reservations blocks) = N.of_nat (length (concat blocks)).
-Proof. unfold series_reservations. rewrite sum_filter_pos. apply sum_lengths. Qed.
-
-Lemma chunks_reserved_total skip blocks : sum_n (chunk_reservations skip blocks) = returned_chunks skip blocks.
-Proof. unfold chunk_reservations, returned_chunks. destruct skip; [reflexivity|]. apply sum_filter_pos. Qed.
-
-Lemma returned_le_reserved blocks : returned_series blocks <= N.of_nat (length (concat blocks)).
-Proof.
-  unfold returned_series. generalize (concat blocks). intro l.
-  induction l as [|x l IH]; cbn [filter length]; [lia|]. destruct (0 <? x); cbn [length]; lia.
-Qed.
-
 Lemma within_mono limit a b : a <= b -> within limit b = true -> within limit a = true.
 Proof.
   unfold within. intros L H. apply orb_true_iff in H as [H|H]; [rewrite H; reflexivity|].
   apply N.leb_le in H. apply orb_true_iff. right. apply N.leb_le. lia.
 Qed.
 
-Lemma store_ok_spec sl cl skip blocks :
-  N.of_nat (length (concat blocks)) < two64 -> returned_chunks skip blocks < two64 ->
-  store_ok sl cl skip blocks = within sl (N.of_nat (length (concat blocks))) && within cl (returned_chunks skip blocks).
+Lemma sum_n_app l1 l2 : sum_n (l1 ++ l2) = sum_n l1 + sum_n l2.
+Proof. induction l1 as [|x l1 IH]; cbn [app sum_n]; [reflexivity|]. rewrite IH. lia. Qed.
+
+(* series of a batch that are sent: pass the lazy matchers and have a chunk in range *)
+Definition wlist (es : list (bool * N)) : list N :=
+  map snd (filter (fun e : bool * N => fst e && (0 <? snd e)) es).
+Definition cnt (es : list (bool * N)) : N := N.of_nat (length (wlist es)).
+
+Lemma wlist_app a b : wlist (a ++ b) = wlist a ++ wlist b.
+Proof. unfold wlist. rewrite filter_app, map_app. reflexivity. Qed.
+
+Lemma cnt_app a b : cnt (a ++ b) = cnt a + cnt b.
+Proof. unfold cnt. rewrite wlist_app, app_length. lia. Qed.
+
+Lemma cnt_le_len es : cnt es <= N.of_nat (length es).
 Proof.
-  intros W1 W2. unfold store_ok.
-  rewrite all_ok_within by (rewrite series_reserved_total; exact W1).
-  rewrite all_ok_within by (rewrite chunks_reserved_total; exact W2).
-  rewrite series_reserved_total, chunks_reserved_total. reflexivity.
+  unfold cnt, wlist. rewrite map_length.
+  induction es as [|e es IH]; cbn [filter length]; [lia|]. destruct (fst e && (0 <? snd e)); cbn [length]; lia.
 Qed.
 
-(* a request that succeeds returns at most the limits: returned <= reserved <= limit *)
-Lemma store_bound sl cl skip blocks :
-  N.of_nat (length (concat blocks)) < two64 -> returned_chunks skip blocks < two64 ->
-  store_ok sl cl skip blocks = true ->
-  within sl (returned_series blocks) = true /\ within cl (returned_chunks skip blocks) = true.
+Section Batch.
+  Variable skip : bool.
+  Variable reqlim : N.
+
+  Definition b_m (r : N * list N * N * bool) : N := fst (fst (fst r)).
+  Definition b_c (r : N * list N * N * bool) : list N := snd (fst (fst r)).
+  Definition b_n (r : N * list N * N * bool) : N := snd (fst r).
+
+  (* entries appended never exceed seriesMatched, nor the batch *)
+  Lemma batch_go_le : forall es m, m + b_n (batch_go skip reqlim es m) <= b_m (batch_go skip reqlim es m)
+    /\ b_n (batch_go skip reqlim es m) <= cnt es.
+  Proof.
+    unfold b_m, b_n.
+    induction es as [|[lm k] r IH]; intro m; cbn [batch_go fst snd]; [cbn; lia|].
+    unfold cnt, wlist. cbn [filter fst snd].
+    destruct (negb lm || negb (0 <? k)) eqn:E.
+    - assert (E' : lm && (0 <? k) = false) by (destruct lm, (0 <? k); cbn in *; congruence). rewrite E'.
+      apply IH.
+    - assert (E' : lm && (0 <? k) = true) by (destruct lm, (0 <? k); cbn in *; congruence). rewrite E'.
+      cbn [map length].
+      destruct ((0 <? reqlim) && (reqlim <? m + 1)); cbn [fst snd]; [lia|].
+      specialize (IH (m + 1)). destruct (batch_go skip reqlim r (m + 1)) as [[[mf cr] ne] st]. cbn [fst snd] in *.
+      unfold cnt, wlist in IH. lia.
+  Qed.
+End Batch.
+
+Lemma batch_go_nolimit skip : forall es m,
+  batch_go skip 0 es m = (m + cnt es, (if skip then [] else wlist es), cnt es, false).
 Proof.
-  intros W1 W2 H. rewrite (store_ok_spec sl cl skip blocks W1 W2) in H. apply andb_true_iff in H as [H1 H2].
-  split; [|exact H2]. apply (within_mono sl _ _ (returned_le_reserved blocks) H1).
+  induction es as [|[lm k] r IH]; intro m; cbn [batch_go].
+  - unfold cnt, wlist. cbn. rewrite N.add_0_r. destruct skip; reflexivity.
+  - unfold cnt, wlist in *. cbn [filter fst snd].
+    destruct (negb lm || negb (0 <? k)) eqn:E.
+    + assert (E' : lm && (0 <? k) = false) by (destruct lm, (0 <? k); cbn in *; congruence). rewrite E'. apply IH.
+    + assert (E' : lm && (0 <? k) = true) by (destruct lm, (0 <? k); cbn in *; congruence). rewrite E'.
+      cbn [andb N.ltb N.compare]. change (0 <? 0) with false. cbn [andb].
+      rewrite IH. cbn [map length].
+      set (n := length (map snd (filter (fun e : bool * N => fst e && (0 <? snd e)) r))).
+      replace (m + 1 + N.of_nat n) with (m + N.of_nat (S n)) by lia.
+      replace (N.of_nat n + 1) with (N.of_nat (S n)) by lia.
+      destruct skip; reflexivity.
 Qed.
 
-(* a request whose result exceeds a limit is refused *)
-Lemma store_no_silent_truncation sl cl skip blocks :
-  N.of_nat (length (concat blocks)) < two64 -> returned_chunks skip blocks < two64 ->
-  (sl <> 0 /\ sl < returned_series blocks) \/ (cl <> 0 /\ cl < returned_chunks skip blocks) ->
-  store_ok sl cl skip blocks = false.
+Definition q_s (r : list N * list N * N) : list N := fst (fst r).
+Definition q_c (r : list N * list N * N) : list N := snd (fst r).
+Definition q_n (r : list N * list N * N) : N := snd r.
+
+Lemma batches_go_le skip reqlim : forall lazy bs,
+  q_n (batches_go lazy skip reqlim bs) <= cnt (concat bs) /\
+  (lazy = true -> q_n (batches_go lazy skip reqlim bs) <= sum_n (q_s (batches_go lazy skip reqlim bs))) /\
+  (lazy = false -> q_s (batches_go lazy skip reqlim bs) = []).
 Proof.
-  intros W1 W2 H. rewrite (store_ok_spec sl cl skip blocks W1 W2). unfold within.
-  pose proof (returned_le_reserved blocks) as L.
+  unfold q_n, q_s.
+  induction bs as [|b r IH]; cbn [batches_go concat fst snd]; [cbn; repeat split; auto; lia|].
+  pose proof (batch_go_le skip reqlim b 0) as [L1 L2]. unfold b_m, b_n in *.
+  destruct (batch_go skip reqlim b 0) as [[[m cr] ne] st]. cbn [fst snd] in *.
+  rewrite cnt_app.
+  destruct st.
+  - cbn [fst snd]. repeat split.
+    + lia.
+    + intros ->. cbn [sum_n]. lia.
+    + intros ->. reflexivity.
+  - destruct IH as (I1 & I2 & I3). destruct (batches_go lazy skip reqlim r) as [[s2 c2] n2]. cbn [fst snd] in *.
+    repeat split.
+    + lia.
+    + intros ->. cbn [app sum_n]. specialize (I2 eq_refl). lia.
+    + intros ->. cbn [app]. apply I3. reflexivity.
+Qed.
+
+Lemma batches_go_nolimit skip : forall lazy bs,
+  q_n (batches_go lazy skip 0 bs) = cnt (concat bs) /\
+  q_c (batches_go lazy skip 0 bs) = (if skip then [] else wlist (concat bs)) /\
+  (lazy = true -> sum_n (q_s (batches_go lazy skip 0 bs)) = cnt (concat bs)).
+Proof.
+  unfold q_n, q_c, q_s.
+  induction bs as [|b r IH]; cbn [batches_go concat fst snd].
+  - unfold cnt, wlist. cbn. destruct skip; auto.
+  - rewrite batch_go_nolimit. destruct IH as (I1 & I2 & I3).
+    destruct (batches_go lazy skip 0 r) as [[s2 c2] n2]. cbn [fst snd] in *.
+    rewrite cnt_app, wlist_app. repeat split.
+    + lia.
+    + rewrite I2. destruct skip; reflexivity.
+    + intros ->. cbn [app sum_n]. rewrite (I3 eq_refl). lia.
+Qed.
+
+Lemma chunked_concat {A} : forall fuel bsz (l : list A), (1 <= bsz)%nat -> (length l <= fuel)%nat ->
+  concat (chunked fuel bsz l) = l.
+Proof.
+  induction fuel as [|f IH]; intros bsz l Hb Hl; cbn [chunked].
+  - destruct l; [reflexivity|cbn in Hl; lia].
+  - destruct l as [|x l']; [reflexivity|]. cbn [concat]. rewrite IH.
+    + apply firstn_skipn.
+    + exact Hb.
+    + rewrite skipn_length. cbn [length] in *. lia.
+Qed.
+
+Lemma min_ge1 bsz n : (1 <= bsz)%nat -> (1 <= n)%nat -> (1 <= Nat.min bsz n)%nat.
+Proof. lia. Qed.
+
+(* one block: what it sends is covered by what it reserves *)
+Lemma block_run_le bsz skip reqlim b : (1 <= bsz)%nat ->
+  q_n (block_run bsz skip reqlim b) <= sum_n (q_s (block_run bsz skip reqlim b)).
+Proof.
+  intro Hb. unfold block_run, q_n, q_s. destruct (b_entries b) as [|e es] eqn:E; [cbn; lia|].
+  destruct (b_lazy b).
+  - destruct (batches_go_le skip reqlim true (chunked (length (e :: es)) (Nat.min bsz (length (e :: es))) (e :: es))) as (_ & H & _).
+    apply H. reflexivity.
+  - set (es' := if (0 <? reqlim) && (reqlim <? N.of_nat (length (e :: es))) then firstn (N.to_nat reqlim) (e :: es) else e :: es).
+    assert (Hne : (1 <= length es')%nat).
+    { unfold es'. destruct ((0 <? reqlim) && (reqlim <? N.of_nat (length (e :: es)))) eqn:C; [|cbn; lia].
+      apply andb_true_iff in C as [C1 C2]. apply N.ltb_lt in C1, C2. rewrite firstn_length. cbn [length] in *. lia. }
+    destruct (batches_go_le skip reqlim false (chunked (length es') (Nat.min bsz (length es')) es')) as (H1 & _ & H3).
+    unfold q_n, q_s in *.
+    destruct (batches_go false skip reqlim (chunked (length es') (Nat.min bsz (length es')) es')) as [[s c] n]. cbn [fst snd] in *.
+    rewrite (H3 eq_refl). cbn [sum_n].
+    rewrite chunked_concat in H1 by (try apply min_ge1; lia).
+    pose proof (cnt_le_len es'). lia.
+Qed.
+
+(* one block without a request Limit: everything wanted is sent, its chunks are what is reserved *)
+Lemma block_run_nolimit bsz skip b : (1 <= bsz)%nat ->
+  q_n (block_run bsz skip 0 b) = cnt (b_entries b) /\
+  q_c (block_run bsz skip 0 b) = (if skip then [] else wlist (b_entries b)).
+Proof.
+  intro Hb. unfold block_run, q_n, q_c. destruct (b_entries b) as [|e es] eqn:E.
+  - unfold cnt, wlist. cbn. destruct skip; auto.
+  - destruct (b_lazy b).
+    + destruct (batches_go_nolimit skip true (chunked (length (e :: es)) (Nat.min bsz (length (e :: es))) (e :: es))) as (H1 & H2 & _).
+      unfold q_n, q_c in *. rewrite chunked_concat in H1, H2 by (try apply min_ge1; cbn [length]; lia). auto.
+    + change (0 <? 0) with false. cbn [andb].
+      destruct (batches_go_nolimit skip false (chunked (length (e :: es)) (Nat.min bsz (length (e :: es))) (e :: es))) as (H1 & H2 & _).
+      unfold q_n, q_c in *. rewrite chunked_concat in H1, H2 by (try apply min_ge1; cbn [length]; lia).
+      destruct (batches_go false skip 0 (chunked (length (e :: es)) (Nat.min bsz (length (e :: es))) (e :: es))) as [[s c] n].
+      cbn [fst snd] in *. auto.
+Qed.
+
+Lemma request_run_le bsz skip reqlim : (1 <= bsz)%nat -> forall blocks,
+  returned_series bsz skip reqlim blocks <= sum_n (series_reservations bsz skip reqlim blocks).
+Proof.
+  intro Hb. unfold returned_series, series_reservations.
+  induction blocks as [|b r IH]; cbn [request_run fst snd]; [cbn; lia|].
+  pose proof (block_run_le bsz skip reqlim b Hb) as L. unfold q_n, q_s in L.
+  destruct (block_run bsz skip reqlim b) as [[s1 c1] n1]. destruct (request_run bsz skip reqlim r) as [[s2 c2] n2].
+  cbn [fst snd] in *. rewrite sum_n_app. lia.
+Qed.
+
+Lemma wanted_wlist b : wanted b = wlist (b_entries b).
+Proof. reflexivity. Qed.
+
+Lemma request_run_nolimit bsz skip : (1 <= bsz)%nat -> forall blocks,
+  returned_series bsz skip 0 blocks = true_series blocks /\
+  sum_n (chunk_reservations bsz skip 0 blocks) = true_chunks skip blocks.
+Proof.
+  intro Hb. unfold returned_series, chunk_reservations, true_series, true_chunks.
+  induction blocks as [|b r IH]; cbn [request_run fst snd map concat].
+  - cbn. destruct skip; auto.
+  - destruct (block_run_nolimit bsz skip b Hb) as [B1 B2]. unfold q_n, q_c in *.
+    destruct (block_run bsz skip 0 b) as [[s1 c1] n1]. destruct (request_run bsz skip 0 r) as [[s2 c2] n2].
+    cbn [fst snd] in *. destruct IH as [I1 I2]. rewrite app_length, wanted_wlist. unfold cnt in B1. split; [lia|].
+    rewrite sum_n_app, I2, B2. destruct skip; [reflexivity|]. rewrite sum_n_app. reflexivity.
+Qed.
+
+Definition nowrap bsz skip reqlim blocks : Prop :=
+  sum_n (series_reservations bsz skip reqlim blocks) < two64 /\ sum_n (chunk_reservations bsz skip reqlim blocks) < two64.
+
+Lemma store_ok_spec sl cl bsz skip reqlim blocks : nowrap bsz skip reqlim blocks ->
+  store_ok sl cl bsz skip reqlim blocks =
+  within sl (sum_n (series_reservations bsz skip reqlim blocks)) && within cl (sum_n (chunk_reservations bsz skip reqlim blocks)).
+Proof. intros [W1 W2]. unfold store_ok. rewrite !all_ok_within by assumption. reflexivity. Qed.
+
+(* a request that succeeds sends at most the limits: returned <= reserved <= limit; eager and lazy
+   postings, any request Limit, any batch size *)
+Lemma store_bound sl cl bsz skip reqlim blocks : (1 <= bsz)%nat -> nowrap bsz skip reqlim blocks ->
+  store_ok sl cl bsz skip reqlim blocks = true ->
+  within sl (returned_series bsz skip reqlim blocks) = true /\
+  within cl (sum_n (chunk_reservations bsz skip reqlim blocks)) = true.
+Proof.
+  intros Hb W H. rewrite (store_ok_spec _ _ _ _ _ _ W) in H. apply andb_true_iff in H as [H1 H2].
+  split; [|exact H2]. apply (within_mono sl _ _ (request_run_le bsz skip reqlim Hb blocks) H1).
+Qed.
+
+(* without a request Limit: a request whose result exceeds a limit is refused, and a request that
+   succeeds sends everything the blocks hold for it *)
+Lemma store_no_silent_truncation sl cl bsz skip blocks : (1 <= bsz)%nat -> nowrap bsz skip 0 blocks ->
+  returned_series bsz skip 0 blocks = true_series blocks /\
+  sum_n (chunk_reservations bsz skip 0 blocks) = true_chunks skip blocks /\
+  ((sl <> 0 /\ sl < true_series blocks) \/ (cl <> 0 /\ cl < true_chunks skip blocks) ->
+   store_ok sl cl bsz skip 0 blocks = false).
+Proof.
+  intros Hb W. destruct (request_run_nolimit bsz skip Hb blocks) as [R1 R2]. split; [exact R1|]. split; [exact R2|].
+  intro H. rewrite (store_ok_spec _ _ _ _ _ _ W). unfold within.
+  pose proof (request_run_le bsz skip 0 Hb blocks) as L. rewrite R1 in L. rewrite R2.
   destruct H as [[H1 H2]|[H1 H2]].
   - apply N.eqb_neq in H1. rewrite H1. cbn [orb].
-    assert (E : N.of_nat (length (concat blocks)) <=? sl = false) by (apply N.leb_gt; lia). rewrite E. reflexivity.
+    assert (E : sum_n (series_reservations bsz skip 0 blocks) <=? sl = false) by (apply N.leb_gt; lia). rewrite E. reflexivity.
   - apply N.eqb_neq in H1. rewrite H1. cbn [orb].
-    assert (E : returned_chunks skip blocks <=? cl = false) by (apply N.leb_gt; lia). rewrite E. apply andb_false_r.
+    assert (E : true_chunks skip blocks <=? cl = false) by (apply N.leb_gt; lia). rewrite E. apply andb_false_r.
 Qed.
 
-Lemma store_case_pred sl cl skip blocks sres cres tseries :
-  N.of_nat (length (concat blocks)) < two64 -> returned_chunks skip blocks < two64 ->
-  tseries <= returned_series blocks ->
-  pred_ok (CStore sl cl skip blocks (store_ok sl cl skip blocks) (negb (store_ok sl cl skip blocks)) sres cres
-                  tseries (returned_chunks skip blocks) tseries (returned_chunks skip blocks)) = true.
+Lemma store_case_pred sl cl bsz skip blocks sres cres tseries : (1 <= bsz)%nat -> nowrap bsz skip 0 blocks ->
+  tseries <= true_series blocks ->
+  pred_ok (CStore sl cl bsz skip 0 blocks (store_ok sl cl bsz skip 0 blocks) (negb (store_ok sl cl bsz skip 0 blocks)) sres cres
+                  tseries (true_chunks skip blocks) tseries (true_chunks skip blocks)) = true.
 Proof.
-  intros W1 W2 T. cbn [pred_ok]. destruct (store_ok sl cl skip blocks) eqn:E.
-  - destruct (store_bound sl cl skip blocks W1 W2 E) as [B1 B2].
-    rewrite (within_mono sl _ _ T B1), B2, !N.eqb_refl. reflexivity.
-  - reflexivity.
+  intros Hb W T. cbn [pred_ok]. destruct (store_ok sl cl bsz skip 0 blocks) eqn:E; [|reflexivity].
+  destruct (store_bound sl cl bsz skip 0 blocks Hb W E) as [B1 B2].
+  destruct (store_no_silent_truncation sl cl bsz skip blocks Hb W) as (R1 & R2 & _).
+  rewrite R1 in B1. rewrite R2 in B2.
+  rewrite (within_mono sl _ _ T B1), B2. change (0 =? 0) with true. rewrite !N.eqb_refl. reflexivity.
 Qed.
 
 Lemma store_source_shape :
